@@ -167,15 +167,8 @@ def pairs_for(tier, rng):
         continue
       tasks.append((pname, a, b))
   if tier == 'quick':
-    # every ordered kind pair at least once, on prefix A (and B for study-level pairs)
-    keep, seen = [], set()
-    rng.shuffle(tasks)
-    for pname, a, b in tasks:
-      k = (REQS[a][0], REQS[b][0])
-      if k not in seen:
-        seen.add(k)
-        keep.append((pname, a, b))
-    tasks = keep
+    # all pairs on prefixes A and B (prefix C only in the thorough tier)
+    tasks = [t for t in tasks if t[0] in ('A', 'B')]
   return tasks
 
 
@@ -189,7 +182,7 @@ def run(c):
   c.proof_stage()
   tasks = pairs_for(c.tier, c.rng)
   backends = ['ram'] if c.tier == 'quick' else ['ram', 'sqlmem']
-  limit = 1500 if c.tier == 'quick' else 20000
+  limit = 1200 if c.tier == 'quick' else 12000
   jobs = [(be, p, a, b, limit) for be in backends for (p, a, b) in tasks]
   ctx = multiprocessing.get_context('fork')
   results = []
@@ -221,7 +214,7 @@ def run(c):
   svc.cleanup()
   return c.finish(
       level='proof',
-      rule='all interleavings (datastore calls + service-lock acquisitions) of 2 concurrent RPCs for %d (prefix, request-pair) combinations drawn from %d request templates of the 11 RPC kinds; outcome compared with both serial orders up to renumbering of new trials; non-trivial = pair with more than 2 schedules' % (len(results), len(REQS)),
+      rule='all interleavings (datastore calls + service-lock acquisitions; explored up to commutation of independent events by sleep sets: two datastore reads commute) of 2 concurrent RPCs for %d (prefix, request-pair) combinations drawn from %d request templates of the 11 RPC kinds; outcome compared with both serial orders up to renumbering of new trials; non-trivial = pair with more than 2 schedules' % (len(results), len(REQS)),
       assumptions=['two concurrent RPCs (three-thread interleavings are not explored)',
                    'a datastore method call is atomic (it holds the datastore lock for its whole body)',
                    'early-stopping answers are exempt from the comparison'])
